@@ -42,6 +42,66 @@ def _expected_port(prefer: bool, clear: int, obfs: int):
     return (clear, False) if clear else (obfs, True)
 
 
+class _ListenerGate:
+    """Application listeners on the event bus whose every invocation can be made to suspend.
+
+    One async listener for ConnectionStateChangedEvent, PeerInitializedEvent and MessageReceivedEvent.  Each
+    invocation gets a label — `d:<STATE>` / `i:<STATE>` (state notification of the outgoing / an incoming peer
+    connection), `d:INIT` / `i:INIT` (PeerInitializedEvent), `m:<Message class>` (a server message, delivered to
+    listeners *before* the response waiters are completed).  A label the schedule has armed (`hold`) parks the
+    invocation on a future until the schedule releases it (`release`); everything else returns at once, as the
+    library's own listeners do."""
+
+    def __init__(self, bus, loop):
+        from aioslsk.events import ConnectionStateChangedEvent, PeerInitializedEvent, MessageReceivedEvent
+        self.loop = loop
+        self.armed: set = set()
+        self.parked: list = []        # [label, future] in arrival order
+        self.seen: list = []          # every label, in emission order
+        self._l = self.on_event       # the bus holds listeners weakly
+        for cls in (ConnectionStateChangedEvent, PeerInitializedEvent, MessageReceivedEvent):
+            bus.register(cls, self._l)
+
+    @staticmethod
+    def label(ev):
+        from aioslsk.events import ConnectionStateChangedEvent, PeerInitializedEvent, MessageReceivedEvent
+        from aioslsk.network.connection import PeerConnection, ServerConnection
+        if isinstance(ev, ConnectionStateChangedEvent):
+            if isinstance(ev.connection, PeerConnection):
+                return ('i' if ev.connection.incoming else 'd') + ':' + ev.state.name
+            return None
+        if isinstance(ev, PeerInitializedEvent):
+            return ('i' if ev.connection.incoming else 'd') + ':INIT'
+        if isinstance(ev, MessageReceivedEvent) and isinstance(ev.connection, ServerConnection):
+            return 'm:' + type(ev.message).__qualname__.split('.')[0]
+        return None
+
+    async def on_event(self, ev):
+        lab = self.label(ev)
+        if lab is None:
+            return
+        self.seen.append(lab)
+        if lab in self.armed:
+            fut = self.loop.create_future()
+            ent = [lab, fut]
+            self.parked.append(ent)
+            try:
+                await fut
+            finally:
+                if ent in self.parked:
+                    self.parked.remove(ent)
+
+    def release(self, lab) -> bool:
+        for ent in self.parked:
+            if ent[0] == lab and not ent[1].done():
+                ent[1].set_result(None)
+                return True
+        return False
+
+    def parked_labels(self) -> list:
+        return [e[0] for e in self.parked if not e[1].done()]
+
+
 def _run_impl(case: dict) -> dict:
     from aioslsk.network.network import Network
     from aioslsk.network.connection import PeerConnection, ConnectionState, PeerConnectionState
@@ -72,6 +132,8 @@ def _run_impl(case: dict) -> dict:
             typ = case['typ']
             bus, net, server, srv_task = await start_network(loop, fn, make_settings(mode, obfuscate=prefer))
             net._ticket_generator = iter([TICKET] + list(range(9000, 9100)))
+            gate = _ListenerGate(bus, loop)
+            gate.armed |= set(case.get('hold', []))
             srv_w = fn.lib_writers[SERVER_ADDR]
             port, obf = _expected_port(prefer, clear, obfs)
             dkey = (PEER_IP, port)
@@ -129,6 +191,10 @@ def _run_impl(case: dict) -> dict:
                     return t is not None and not t.done() and _indirect_parked(t)
                 if name == 'cancelRequest':
                     return not req.done()
+                if name in ('hold', 'unhold'):
+                    return True
+                if name == 'release':
+                    return arg in gate.parked_labels()
                 raise ValueError(name)
 
             def _indirect_parked(t):
@@ -202,6 +268,12 @@ def _run_impl(case: dict) -> dict:
                     let_indirect_time_out()
                 elif name == 'cancelRequest':
                     req.cancel()
+                elif name == 'hold':
+                    gate.armed.add(arg)
+                elif name == 'unhold':
+                    gate.armed.discard(arg)
+                elif name == 'release':
+                    assert gate.release(arg)
 
             dialed: list = []
 
@@ -257,6 +329,8 @@ def _run_impl(case: dict) -> dict:
                 acc_exc = sorted({type(t.exception()).__name__ for t in fn.accept_tasks.values()
                                   if t.done() and not t.cancelled() and t.exception() is not None})
                 facts = {'res': res, 'reg': reg, 'tw': tw, 'rw': rw_n, 'aw': aw_n, 'open': sorted(op),
+                         'held': gate.parked_labels(), 'seen': list(gate.seen),
+                         'reg_states': sorted(('i' if c.incoming else 'd') + ':' + c.state.name + ':' + c.connection_state.name for c in net.peer_connections),
                          'accept_exceptions': acc_exc,
                          'reg_initialised': all(c.connection_state != PeerConnectionState.AWAITING_INIT
                                                 and c.state == ConnectionState.CONNECTED for c in net.peer_connections),
@@ -302,7 +376,7 @@ def _run_impl(case: dict) -> dict:
                 lines.append(line)
                 facts_l.append(facts)
             dconn = [c for c in [*net.peer_connections] if not c.incoming]
-            keep = (bus, net, srv_task)  # noqa: F841
+            keep = (bus, net, srv_task, gate)  # noqa: F841
             return {'executed': executed, 'exec_idx': exec_idx, 'lines': lines, 'facts': facts_l, 'skipped': skipped,
                     'dialed': [list(k) for k in dialed], 'expected_dial': [PEER_IP, port], 'hang': hang['hit'], 'sites': sorted(audit.sites),
                     'dial_obfuscated': [bool(c.obfuscated) for c in dconn],
